@@ -4,9 +4,10 @@
   <fields> = `-` or `Name=<hex>,Name=<hex>` (declaration order, zero values absent)
 
   subscribe.split <request>        splitSubscribeRequest: `ok T:<target> <request> | T:… ` (sorted by target), `err <class>`, `panic`
-  subscribe.init dev:<target>=<r<id>|o<id>,…> …   a new stream; the connected targets and what each sends back
-  subscribe.msg <request>          one message on the stream: `ok|err <class>` then per target `| T:<t> [sub <request>] [relay:<ids>] [poll]`
-  subscribe.eof / subscribe.recverr  the subscriber's stream ends
+  subscribe.init <sid> dev:<target>=<r<id>|o<id>,…> …   a new stream named <sid>; the connected targets and what each sends back
+  subscribe.msg <sid> <request>    one message on that stream: `ok|err <class>` then per target `| T:<t> [sub <request>] [relay:<ids>] [poll]`
+  subscribe.eof <sid> / subscribe.recverr <sid>   the subscriber's stream ends
+  (a line naming a stream other than the one opened last is answered `no-stream`)
 -/
 import OnosVerif.Base.Wire
 import OnosVerif.Subscribe.Model
@@ -113,6 +114,7 @@ def encOuts (outs : List Out) : String :=
       (if rel.isEmpty then "" else " relay:" ++ ",".intercalate rel) ++ String.join polls)
 
 structure Stream where
+  sid : String := ""
   dev : Dev := []
   st : SState := {}
   closed : Bool := false
@@ -128,33 +130,39 @@ def handleIO (op : String) (args : List String) : IO (Option String) := do
     | some r => pure (some (encSplit (split r)))
     | none => pure none
   | "init" =>
-    match args.mapM decDevTok with
-    | some dev => streamRef.set { dev := dev }; pure (some "ok")
-    | none => pure none
+    match args with
+    | sid :: devs =>
+      match devs.mapM decDevTok with
+      | some dev => streamRef.set { sid := sid, dev := dev }; pure (some "ok")
+      | none => pure none
+    | [] => pure none
   | "msg" =>
-    match decReq args with
-    | none => pure none
-    | some r =>
+    match args with
+    | sid :: rest =>
+      match decReq rest with
+      | none => pure none
+      | some r =>
+        let s ← streamRef.get
+        if s.sid != sid then pure (some "no-stream") else
+        if s.closed then pure (some "closed") else
+        let (st', outs, err) := process s.dev s.st r
+        match err with
+        | some e =>
+          streamRef.set { s with st := st', closed := true }
+          pure (some ("err " ++ encErr e ++ encOuts outs))
+        | none =>
+          streamRef.set { s with st := st' }
+          pure (some ("ok" ++ encOuts outs))
+    | [] => pure none
+  | "eof" | "recverr" =>
+    match args with
+    | [sid] =>
       let s ← streamRef.get
+      if s.sid != sid then pure (some "no-stream") else
       if s.closed then pure (some "closed") else
-      let (st', outs, err) := process s.dev s.st r
-      match err with
-      | some e =>
-        streamRef.set { s with st := st', closed := true }
-        pure (some ("err " ++ encErr e ++ encOuts outs))
-      | none =>
-        streamRef.set { s with st := st' }
-        pure (some ("ok" ++ encOuts outs))
-  | "eof" =>
-    let s ← streamRef.get
-    if s.closed then pure (some "closed") else
-    streamRef.set { s with closed := true }
-    pure (some "ret eofErr")
-  | "recverr" =>
-    let s ← streamRef.get
-    if s.closed then pure (some "closed") else
-    streamRef.set { s with closed := true }
-    pure (some "ret nil")
+      streamRef.set { s with closed := true }
+      pure (some (if op == "eof" then "ret eofErr" else "ret nil"))
+    | _ => pure none
   | _ => pure none
 
 end OnosVerif.Subscribe
